@@ -510,7 +510,7 @@ def do_op(env, op):
             return canon(L["rule"].cssText)
         raise ValueError("unknown live op %r" % (op,))
     elif k == "prefs_vars":
-        return sorted((a, repr(b)) for a, b in vars(cp.ser.prefs).items())
+        return canon(sorted((a, repr(b)) for a, b in vars(cp.ser.prefs).items()))
     elif k == "ser_sheet":
         return canon(env.sheets[op[1]].cssText)
     elif k == "ser_rule":
